@@ -161,7 +161,7 @@ def r07_3(prog: Program, rep: Report):
             init = c.methods.get("__init__")
             if init is not None:
                 starts.append(init)
-        starts.append(prog.function(f"{C.DIRS[d][0]}._get_unmarshaller"))
+        starts.append(C.dispatcher(prog, d))
     n = 0
     for s in starts:
         chains = E.reachable(prog, s, depth=6)
